@@ -307,10 +307,17 @@ def tprob(a):
 
 def b_eigenspectrum(a):
     T = wrap(tprob(a), a["container"])
-    left = a["seed"] % 2 == 0                 # every second call asks for the right eigenvectors
     if a["container"] == "dense" and a["seed"] % 3 != 0:
         T = np.asfortranarray(T)              # e.g. the transpose view of a row-major matrix
-    return (lambda: tm.eigenspectrum(T, n_eigs=a["n_eigs"], left=left)), [T]
+    return (lambda: tm.eigenspectrum(T, n_eigs=a["n_eigs"])), [T]
+
+
+def b_eigenspectrum_right(a):
+    """right eigenvectors (left=False, which no caller inside the library uses); dense input in either memory order"""
+    T = wrap(tprob(a), a["container"])
+    if a["container"] == "dense" and a["seed"] % 2:
+        T = np.asfortranarray(T)
+    return (lambda: tm.eigenspectrum(T, n_eigs=a["n_eigs"], left=False)), [T]
 
 
 def b_eq_probs(a):
@@ -676,6 +683,7 @@ ROUTINES = {
     "builders.mle": (counts_args(max_n=5), b_builder("mle")),
     "trim_disconnected": (counts_args(), b_trim),
     "eigenspectrum": (counts_args(), b_eigenspectrum),
+    "eigenspectrum_right": (counts_args(), b_eigenspectrum_right),
     "eq_probs": (counts_args(), b_eq_probs),
     "synthetic_ensemble": (counts_args(), b_synth),
     "committors": (counts_args(), b_committors),
@@ -967,7 +975,7 @@ def run_big_sparse(case):
 
 CLAUSES = [
     Clause("masked_sites", routine_case(MASKED), run_case, quick=240, thorough=4000),
-    Clause("all_routines", routine_case(sorted(r for r in ROUTINES if r not in LONG)), run_case, quick=1200, thorough=16000),
+    Clause("all_routines", routine_case(sorted(r for r in ROUTINES if r not in LONG)), run_case, quick=3000, thorough=16000),
     Clause("threads_long_inputs", routine_case(LONG), run_case, quick=24, thorough=400),
     Clause("iterative_eigensolver_branch", big_sparse_args(), run_big_sparse, quick=8, thorough=80),
     Clause("worker_processes", worker_case(), run_workers, quick=12, thorough=120),
